@@ -10,6 +10,9 @@ Definition sink_inv (s : sink) : Prop :=
 Lemma flat_cons c cs : flat (c :: cs) = c ++ flat cs.
 Proof. reflexivity. Qed.
 
+Lemma bounded_not_partial k : bounded k = true -> partial k = false.
+Proof. destruct k; cbn; congruence. Qed.
+
 Lemma run_sink_bounded s cs : bounded (s_kind s) = true -> sink_inv s ->
   let r := run_sink s cs in
   let room := s_cap s - len (s_written s) in
@@ -32,18 +35,19 @@ Proof.
       split; [split; intro G; [apply H1 in G | apply H1]; unfold flat in *; lia|].
       split; [rewrite H2; cbn [flat concat]; now rewrite app_assoc|].
       split; [exact H3|]. split; [exact H4|exact H5].
-    + cbn [fst snd flat concat]. change (concat []) with (@nil N). rewrite app_nil_r.
+    + unfold write_all_partial. rewrite (bounded_not_partial _ Hb).
+      cbn [fst snd flat concat]. change (concat []) with (@nil N). rewrite app_nil_r.
       repeat split; auto; try discriminate; try (intro; lia).
       intro G. exfalso. change (concat (c :: cs)) with (c ++ flat cs) in G. rewrite len_app in G. lia.
 Qed.
 
-Lemma run_sink_unbounded s cs : bounded (s_kind s) = false -> s_pos s = len (s_written s) ->
+Lemma run_sink_unbounded s cs : bounded (s_kind s) = false -> partial (s_kind s) = false -> s_pos s = len (s_written s) ->
   run_sink s cs = (true, mksink (s_kind s) (s_cap s) (s_written s ++ flat cs) (s_pos s + len (flat cs))).
 Proof.
-  revert s. induction cs as [|c cs IH]; intros s Hb Hp; cbn [run_sink].
+  revert s. induction cs as [|c cs IH]; intros s Hb Hq Hp; cbn [run_sink].
   - cbn [flat concat]. change (concat []) with (@nil N). rewrite app_nil_r. change (len []) with 0.
     rewrite N.add_0_r. destruct s; reflexivity.
-  - unfold write_all. rewrite Hb. rewrite IH; [|exact Hb|cbn [s_pos s_written]; rewrite len_app; lia].
+  - unfold write_all. rewrite Hb, Hq. rewrite IH; [|exact Hb|exact Hq|cbn [s_pos s_written]; rewrite len_app; lia].
     cbn [s_kind s_cap s_written s_pos]. change (flat (c :: cs)) with (c ++ flat cs).
     rewrite len_app, app_assoc. f_equal. f_equal. lia.
 Qed.
@@ -85,6 +89,65 @@ Proof.
     rewrite IH by lia. reflexivity.
 Qed.
 
+(* std's bounded writer behind the io adapter: succeeds iff everything fits; what is left behind is the
+   first min(cap, total) bytes of the output (a prefix, not necessarily chunk-aligned) *)
+Lemma partial_not_bounded k : partial k = true -> bounded k = false.
+Proof. destruct k; cbn; congruence. Qed.
+
+Lemma take_prefix_len {A} (c : list A) room a r : take c room = Some (a, r) -> c = a ++ r /\ len a = room.
+Proof. apply take_spec. Qed.
+
+Lemma run_sink_partial s cs : partial (s_kind s) = true ->
+  s_pos s = len (s_written s) -> len (s_written s) <= s_cap s ->
+  let r := run_sink s cs in
+  let room := s_cap s - len (s_written s) in
+  (fst r = true <-> len (flat cs) <= room)
+  /\ (exists rest, s_written s ++ flat cs = s_written (snd r) ++ rest)
+  /\ len (s_written (snd r)) = len (s_written s) + N.min room (len (flat cs))
+  /\ s_pos (snd r) = len (s_written (snd r))
+  /\ (fst r = true -> s_written (snd r) = s_written s ++ flat cs).
+Proof.
+  revert s. induction cs as [|c cs IH]; intros s Hq Hp Hc; cbn [run_sink].
+  - cbn [flat concat fst snd]. change (concat []) with (@nil N). change (len []) with 0. rewrite app_nil_r.
+    repeat split; try lia; auto; try (rewrite N.min_r by lia; lia). exists []. now rewrite app_nil_r.
+  - pose proof (partial_not_bounded _ Hq) as Hb. unfold write_all. rewrite Hb, Hq.
+    change (flat (c :: cs)) with (c ++ flat cs).
+    destruct (N.leb_spec (len c) (s_cap s - len (s_written s))) as [Hfit|Hno].
+    + set (s' := mksink (s_kind s) (s_cap s) (s_written s ++ c) (s_pos s + len c)).
+      destruct (IH s') as (H1 & (rest & H2) & H3 & H4 & H5); unfold s'; cbn [s_kind s_cap s_written s_pos]; auto;
+        try (rewrite len_app; lia).
+      unfold s' in *. cbn [s_kind s_cap s_written s_pos] in *. rewrite len_app in *.
+      split; [split; intro G; [apply H1 in G|apply H1]; lia|].
+      split; [exists rest; rewrite <- H2; now rewrite app_assoc|].
+      split; [rewrite H3; lia|]. split; [exact H4|].
+      intro G. rewrite H5 by exact G. now rewrite app_assoc.
+    + cbn [fst snd]. unfold write_all_partial. rewrite Hq.
+      set (room := s_cap s - len (s_written s)) in *.
+      destruct (take c room) as [[a r]|] eqn:Et.
+      * apply take_spec in Et as [Ec El]. cbn [s_written s_pos]. rewrite !len_app.
+        assert (Hlc : len c = len a + len r) by (rewrite Ec; apply len_app).
+        split; [split; [discriminate|lia]|].
+        split; [exists (r ++ flat cs); rewrite Ec; now rewrite <- !app_assoc|].
+        split; [rewrite N.min_l by lia; lia|].
+        split; [lia|discriminate].
+      * apply take_none in Et. lia.
+Qed.
+
+Theorem sinks_partial k cap cs : partial k = true ->
+  let r := run_sink (sink_new k cap) cs in
+  (fst r = true <-> len (flat cs) <= cap)
+  /\ (exists rest, flat cs = s_written (snd r) ++ rest)
+  /\ len (s_written (snd r)) = N.min cap (len (flat cs))
+  /\ s_pos (snd r) = len (s_written (snd r))
+  /\ (fst r = true -> s_written (snd r) = flat cs).
+Proof.
+  intro Hq. cbv zeta.
+  destruct (run_sink_partial (sink_new k cap) cs Hq eq_refl) as (H1 & H2 & H3 & H4 & H5).
+  { cbn. change (len []) with 0. lia. }
+  cbn [sink_new s_cap s_written] in *. change (len (@nil N)) with 0 in *. rewrite N.sub_0_r in *. cbn [app] in *.
+  repeat split; try tauto.
+Qed.
+
 Theorem sinks_same k k' cap cap' cs :
   fst (run_sink (sink_new k cap) cs) = true -> fst (run_sink (sink_new k' cap') cs) = true ->
   s_written (snd (run_sink (sink_new k cap) cs)) = s_written (snd (run_sink (sink_new k' cap') cs)).
@@ -92,10 +155,12 @@ Proof.
   assert (G: forall k cap, fst (run_sink (sink_new k cap) cs) = true -> s_written (snd (run_sink (sink_new k cap) cs)) = flat cs).
   { intros k0 cap0 H. destruct (bounded k0) eqn:Hb.
     - now apply (sinks_bounded k0 cap0 cs Hb).
-    - rewrite run_sink_unbounded by (auto; reflexivity). reflexivity. }
+    - destruct (partial k0) eqn:Hq.
+      + now apply (sinks_partial k0 cap0 cs Hq).
+      + rewrite run_sink_unbounded by (auto; reflexivity). reflexivity. }
   intros H1 H2. now rewrite (G k cap H1), (G k' cap' H2).
 Qed.
 
-Theorem sinks_unbounded k cap cs : bounded k = false ->
+Theorem sinks_unbounded k cap cs : bounded k = false -> partial k = false ->
   run_sink (sink_new k cap) cs = (true, mksink k cap (flat cs) (len (flat cs))).
-Proof. intro Hb. rewrite run_sink_unbounded by (auto; reflexivity). reflexivity. Qed.
+Proof. intros Hb Hq. rewrite run_sink_unbounded by (auto; reflexivity). reflexivity. Qed.
